@@ -200,6 +200,14 @@ class TsGen:
             for v in r.sample(["a", "b", "c"], r.randrange(2, 4)):
                 ms.append(("obj", [("kind", False, ("lit", v)), ("tag", False, ("lit", v + "t")), (r.choice(["p", "q"]), r.random() < 0.4, self.leaf())], None))
             return [("alias", "S", [], ("union", ms))], [("S", ("ref", "S", [])), ("L", ("arr", ("ref", "S", [])))]
+        if kind % 8 == 6:
+            # an intersection of inline objects that give one key the same type with different optionality (either order), plus other keys
+            t = self.leaf()
+            k = r.choice(["a", "id", "k"])
+            m1 = ("obj", [(k, True, t)] + ([("p", r.random() < 0.5, self.leaf())] if r.random() < 0.5 else []), None)
+            m2 = ("obj", [(k, False, t)] + ([("q", r.random() < 0.5, self.leaf())] if r.random() < 0.5 else []), None)
+            ms = [m1, m2] if r.random() < 0.5 else [m2, m1]
+            return [("alias", "I", [], ("inter", ms))], [("I", ("ref", "I", [])), ("W", ("obj", [("i", False, ("inter", list(reversed(ms))))], None))]
         if kind % 4 == 2:
             # intersections: literal members vs named members, shared keys
             a = ("alias", "A", [], ("obj", [("a", False, self.leaf()), ("k", False, ("str",))], None))
